@@ -30,6 +30,7 @@ type dcOpt struct {
 	methods      map[string]v1alpha1.ChildUpdateMethod // by resource
 	labelSel     *metav1.LabelSelector
 	annSel       *v1alpha1.AnnotationSelector
+	annSelFor    map[string]*v1alpha1.AnnotationSelector // per parent resource: overrides annSel for that rule only
 	finalize     bool
 	customize    bool
 	ignoreStatus bool
@@ -68,6 +69,9 @@ func (o dcOpt) build() *v1alpha1.DecoratorController {
 			ResourceRule:       v1alpha1.ResourceRule{APIVersion: pk.APIVersion(), Resource: pk.Resource},
 			LabelSelector:      o.labelSel,
 			AnnotationSelector: o.annSel,
+		}
+		if as, ok := o.annSelFor[pk.Resource]; ok {
+			rule.AnnotationSelector = as
 		}
 		if o.ignoreStatus {
 			t := true
